@@ -193,6 +193,11 @@ oscore_encode_option_value(uint8_t *option_buffer,
   }
 
   if (cose->kid_context.length > 0 && cose->kid_context.s != NULL) {
+    /* length byte, up to 3 bytes of CBOR head for Appendix B.2, kid context */
+    if (cose->kid_context.length > 255 ||
+        offset + 1 + (appendix_b_2 ? 3 : 0) + cose->kid_context.length >
+        option_buf_len)
+      return 0;
     if (appendix_b_2) {
       /* Need to CBOR wrap kid_context - yuk! */
       uint8_t *ptr = &option_buffer[offset+1];
@@ -216,6 +221,8 @@ oscore_encode_option_value(uint8_t *option_buffer,
   }
 
   if (cose->key_id.s != NULL) {
+    if (offset + cose->key_id.length > option_buf_len)
+      return 0;
     option_buffer[0] |= 0x08;
     if (cose->key_id.length) {
       memcpy(&(option_buffer[offset]), cose->key_id.s, cose->key_id.length);
